@@ -115,6 +115,11 @@ CHECKS = {
 }
 
 CHECKS.update({
+    "C35": (
+        "model-based property testing: enumerated require / pragma / precedence grids + Hypothesis random histories of defmacro, require (all documented shapes), pragma and scope open/close over two generated macro modules; lock-step reference model of the macro namespaces (macros= -> local innermost->outermost -> module -> core; documented name set per require shape) decides every call's expansion value, the final _hy_macros keys and the core-shadow warnings",
+        "Precedence subsets and require shape x export config x place are enumerated within the stated vocabulary; histories are sampled. Every macro expands to its own integer, so the definition a call used is observable.",
+        "Trusts vf/c35_model.py and hy.mangle for names; (local-macros) at places where Python variable scoping intervenes is void.",
+        "macrospaces", "2/C35"),
     "C04": (
         "property-based differential testing against a reference evaluator of the documented nested-loop semantics (vf/c04_comp.py, never calls Hy) + metamorphic strategy pair (as written vs. one subform rewritten to (do (E 9000 None) e), which forces the generator-function strategy) over an enumerated clause-kind x forced-slot sweep and Hypothesis-sampled clause lists",
         "lfor/sfor/dfor/gfor/for forms of 0..5 clauses (iteration with destructuring and starred targets, :if, :setv, :do, #* / #** finals, nested comprehension) in module, function, class and let scopes: result and exact effect log, gfor laziness per next(), post-state of every iteration/:setv/star/setx name and of the let binding, for-else. Clause-kind vectors <= 3 (thorough <= 4) x form kinds x forced slot enumerated, the rest sampled.",
@@ -304,6 +309,8 @@ def main():
              "kind_free_text": "clause-list IR, renderer, validity checker and reference evaluator of the nested-loop semantics"},
             {"name": "packages", "path": "vf/c15_gen.py", "serves_properties": ["C15"],
              "kind_free_text": "generated Hy packages (macro modules, every require shape), child-interpreter worker vf/c15worker.py"},
+            {"name": "macrospaces", "path": "vf/c35_model.py", "serves_properties": ["C35"],
+             "kind_free_text": "macro-namespace histories rendered to generated .hy modules, two-phase reference model"},
             {"name": "literals", "path": "vf/props/c22.py", "serves_properties": ["C22", "C23", "C24"],
              "kind_free_text": "per-module structural generators of literal texts (vf/props/c22.py, c23.py, c24.py) with CPython as the reference evaluator"},
         ],
